@@ -132,6 +132,8 @@ def run(F, chk):
     check_progress(F, G5)
     G7 = chk.rule('G7', 'search paging: the loop counter is advanced exactly once after each examined element and the continuation returned is the counter itself')
     check_paging(F, G7)
+    G11 = chk.rule('G11', 'time lookups use partition_point with a strict `key < wanted` predicate; binary_search* only on keys that are unique by construction')
+    check_lookup_primitives(F, G11)
     G8 = chk.rule('G8', 'index builder: the processed marker advances exactly to the end of what was filtered')
     check_builder_progress(F, G8)
 
@@ -473,3 +475,80 @@ def check_builder_progress(F, G8):
                                  'the index builder sets all_msgs_last_processed_len = %s at %s: not offset + end of a slice that was actually filtered (filtered slice ends: %s) - messages beyond the filtered chunk are marked processed and never reach the filtered index' %
                                  (se[:100], b.loc(s.sp), [show(x)[:50] for x in ends]), where=b.loc(s.sp))
     G8.floor('progress stores under filters_active in the index builder', n, 3)
+
+
+# ---------------------------------------------------------------------------------------------
+# G11: lookups return the FIRST position not before the requested one
+
+TIME_KEY = re.compile(r'(timestamp_us|reception_time_us|start_time|timestamp_dms|time_us)')
+
+
+def check_lookup_primitives(F, G11):
+    """"index/time lookups return the position of the first stream message not before the requested one".
+    `binary_search_by(cmp)` returns *any* of several equal elements, so it is only acceptable for keys that are unique by
+    construction (positions in all_msgs, msg.index in index order); a search keyed by a *time* (many messages share one)
+    must use `partition_point` with the strict predicate `key < wanted` (first element for which it is false).
+    Who-may-call + predicate-shape rule over the lookup functions of the remote module."""
+    import comparators
+    n = 0
+    for b in F.order:
+        if b.crate != 'bin' or b.kind == 'closure' or not b.path.startswith('adlt_bin::remote::') or '::tests::' in b.path:
+            continue
+        if 'StreamContext' not in ' '.join(b.arg_types()) or 'FileContext' not in ' '.join(b.arg_types()):
+            continue
+        if not re.search(r'(^usize$|Result<usize)', b.ret_type()):
+            continue
+        cfg = CFG(b)
+        E = ExprBuilder(cfg, fold_named=True)
+        for blk in b.calls():
+            t = blk.term
+            p = t.callee.path
+            m = re.search(r'::(binary_search_by|binary_search_by_key|binary_search|partition_point)$', p)
+            if not m:
+                continue
+            kind = m.group(1)
+            n += 1
+            G11.sites += 1
+            G11.fn(b.path)
+            cl = None
+            for a in t.args:
+                if '{closure@' in (a.ty or ''):
+                    cl = comparators.closure_path_of(F, b, a)
+            if kind == 'binary_search':
+                key = show(ExprBuilder(cfg).operand(t.args[1])) if len(t.args) > 1 else ''
+                coll = show(E.operand(t.args[0]))
+                # filtered_msgs holds strictly increasing positions of all_msgs (built by process_stream_new_msgs, rule G8): unique keys
+                if TIME_KEY.search(key) and 'filtered_msgs' not in coll:
+                    G11.violation(('any-of-equal-times', b.path, kind), '%s searches a time with binary_search at %s: of several messages with the same time an arbitrary one is returned, not the first' % (b.path, b.loc(t.sp)), where=b.loc(t.sp))
+                else:
+                    G11.ok(sample={'function': b.path, 'at': b.loc(t.sp), 'primitive': 'binary_search', 'key': key[:50], 'unique_key': True})
+                continue
+            if cl is None:
+                G11.violation(('lookup-closure-unresolved', b.path, kind), 'cannot resolve the closure given to %s at %s' % (kind, b.loc(t.sp)), where=b.loc(t.sp))
+                continue
+            ccfg = CFG(cl)
+            cE = ExprBuilder(ccfg, fold_named=True)
+            rets = []
+            for (rb, rsi, rd) in ccfg.defs.get(0, []):
+                if rsi == 'call':
+                    rets.append(('call', rd.callee.path, tuple(cE.operand(a) for a in rd.args)))
+                else:
+                    rets.append(cE.rvalue(rd.rv))
+            txt = ' ; '.join(show(r) for r in rets)
+            # every time source read inside the closure
+            reads_time = any(TIME_KEY.search(show(cE.operand(a))) for x in cl.calls() for a in x.term.args) or TIME_KEY.search(txt) is not None or \
+                any(x.term.callee.path.endswith('::timestamp_us') for x in cl.calls())
+            if kind.startswith('binary_search_by'):
+                if reads_time:
+                    G11.violation(('any-of-equal-times', b.path, kind), '%s looks a time up with %s at %s: several messages share one time and binary_search_by returns any of them, so the answer is not the first '
+                                  'message not before the requested time (use partition_point with `key < wanted`)' % (b.path, kind, b.loc(t.sp)), where=b.loc(t.sp))
+                else:
+                    G11.ok(sample={'function': b.path, 'at': b.loc(t.sp), 'primitive': kind, 'key': txt[:60], 'unique_key': True})
+            else:
+                strict = rets and all(isinstance(r, tuple) and r[0] == 'bin' and r[1] == 'Lt' for r in rets)
+                if strict:
+                    G11.ok(sample={'function': b.path, 'at': b.loc(t.sp), 'primitive': 'partition_point', 'predicate': txt[:60], 'strict': True})
+                else:
+                    G11.violation(('partition-not-strict', b.path), '%s uses partition_point at %s with predicate %s: the first position *not before* the requested one needs the strict predicate `key < wanted` '
+                                  '(with `<=` every message equal to the request is skipped)' % (b.path, b.loc(t.sp), txt[:80]), where=b.loc(t.sp))
+    G11.floor('search primitives in the lookup functions', n, 4)
